@@ -1,15 +1,21 @@
 package main
 
-// which rules serve which property (DESIGN.md section 4)
+import (
+	"sort"
+	"strings"
+)
+
+// which rules serve which property (DESIGN.md section I.4)
 func init() {
 	serve("C01", "T1", "T2", "T3", "T6", "T8", "T9", "T10", "T11", "B1", "B2", "B3", "B3b")
 	serve("C02", "B1", "B1n", "B2", "B3", "B3b", "B4", "B6")
 	serve("C03", "F1", "F2", "T6", "T9", "B4", "B3b", "G6r", "L1@io")
-	serve("C04", "W1", "W2", "W2b", "W3", "V6", "T11", "W5", "W6", "W7", "W8", "W2b", "G15", "G16", "G17", "S7", "S8", "G18", "G19", "G20", "G7r", "P8", "V7", "V8", "L8", "L9", "T5", "T11")
+	serve("C04", "W1", "W2", "W2b", "W3", "W5", "W6", "W7", "W8", "V6", "T5", "T11")
 	serve("C05", "V2", "V1", "V4", "V5", "V7")
+	serve("C06", "T1", "T2", "T3", "T4", "T5", "T8", "T10", "B2", "B3", "V1")
 	serve("C07", "B6", "B6m", "G5", "G6", "G6r", "B2", "B3")
 	serve("C08", "G4", "G8", "G12", "G18", "G19", "G6", "R4", "B6", "B6m")
-	serve("C09", "L1", "L2", "P3", "P3c", "L6", "S4", "G7", "G7r", "G16", "P8", "L8")
+	serve("C09", "L1", "L2", "L8", "P3", "P3c", "P8", "L6", "S4", "G7", "G7r", "G16")
 	serve("C10", "P3", "P3w", "P4", "P5", "P7", "L1", "L8", "G15", "G16")
 	serve("C11", "R1", "R2", "R3", "R4", "P1", "P2", "G17")
 	serve("C12", "S2", "S3", "S4", "S6", "S7", "S8", "V3")
@@ -18,14 +24,30 @@ func init() {
 	serve("C15", "L1", "L8", "L9", "G3", "G13", "L7")
 	serve("C16", "G1", "G1b", "G9", "G10", "G10b", "R4")
 	serve("C17", "P1", "L2", "L3", "G11", "G20")
-	serve("C18", "L1", "L2", "L6", "P2", "R4", "G10", "G14", "G17", "L8")
+	serve("C18", "L1", "L2", "L6", "L8", "P2", "R4", "G10", "G14", "G17")
 	serve("C19", "P3", "P6", "L1", "L6", "L8")
 	serve("C20", "G2", "R4", "L2", "L3")
-	serve("C06", "T1", "T2", "T3", "T4", "T5", "T8", "T10", "B2", "B3", "V1")
 }
 
 func init() {
-	// pseudo-property used only to validate the corpus in one run
-	serve("ALL", "T1", "T2", "T3", "T4", "T5", "T6", "T8", "T9", "B1", "B1n", "B2", "B3", "B3b", "B4", "B6", "B6m", "F1", "F2", "G1", "G2", "G3", "G4", "G5", "G6", "G6r", "G7", "G8", "G9", "G10", "G11", "G12", "G13", "G14", "G1b", "G10b", "P7", "V5", "T10", "W3", "V6",
-		"L1", "L2", "L3", "L4", "L5", "L6", "L7", "P1", "P2", "P3", "P3c", "P3w", "P4", "P5", "P6", "R1", "R2", "R3", "R4", "S1", "S2", "S3", "S4", "S5", "S6", "V1", "V2", "V3", "V4", "W1", "W2")
+	// pseudo-property used only to validate the whole corpus in one run: every rule that serves
+	// some property, unscoped
+	seen := map[string]bool{}
+	for p, names := range propRules {
+		if p == "ALL" {
+			continue
+		}
+		for _, n := range names {
+			if i := strings.Index(n, "@"); i > 0 {
+				n = n[:i]
+			}
+			seen[n] = true
+		}
+	}
+	var all []string
+	for n := range seen {
+		all = append(all, n)
+	}
+	sort.Strings(all)
+	serve("ALL", all...)
 }
